@@ -115,3 +115,208 @@ fn c02_loop_levels_0() {
     std::mem::forget(keep);
     std::mem::forget(f);
 }
+
+// ---------------------------------------------------------------------------
+// Command search order (XCU 2.9.1.4): special built-in, then function, then any other
+// built-in, then PATH; a name containing a slash is always external.
+// The environment answers are symbolic (is there a built-in of this name, of which type and
+// availability; is there a function); names are the concrete strings "x" and "a/x".
+// ---------------------------------------------------------------------------
+use std::pin::Pin;
+use std::rc::Rc;
+use yash_env::builtin::{Builtin as BuiltinDef, Type};
+use yash_env::function::{Function, FunctionBody};
+use yash_env::semantics::command::search::{Availability, ClassifyEnv, Target, classify};
+use yash_env::source::Location;
+
+#[derive(Debug)]
+struct Body;
+impl std::fmt::Display for Body {
+    fn fmt(&self, _f: &mut std::fmt::Formatter<'_>) -> std::fmt::Result {
+        Ok(())
+    }
+}
+impl FunctionBody<()> for Body {
+    async fn execute(&self, _env: &mut yash_env::Env<()>) -> yash_env::semantics::Result {
+        std::ops::ControlFlow::Continue(())
+    }
+}
+
+fn dummy_main(
+    _env: &mut yash_env::Env<()>,
+    _args: Vec<Field>,
+) -> Pin<Box<dyn Future<Output = yash_env::builtin::Result> + '_>> {
+    Box::pin(std::future::ready(yash_env::builtin::Result::default()))
+}
+
+struct SearchEnv {
+    builtin: Option<(Type, Availability)>,
+    function: Option<Rc<Function<()>>>,
+    asked_builtin: std::cell::Cell<u8>,
+    exec_b: bool,
+    exec_c: bool,
+}
+
+impl ClassifyEnv<()> for SearchEnv {
+    fn builtin(&self, _name: &str) -> Option<(BuiltinDef<()>, Availability)> {
+        self.asked_builtin.set(self.asked_builtin.get() + 1);
+        self.builtin.map(|(t, a)| (BuiltinDef::new(t, dummy_main), a))
+    }
+    fn function(&self, _name: &str) -> Option<&Rc<Function<()>>> {
+        self.function.as_ref()
+    }
+}
+
+fn any_type() -> Type {
+    let k: u8 = kani::any();
+    kani::assume(k < 5);
+    match k {
+        0 => Type::Special,
+        1 => Type::Mandatory,
+        2 => Type::Elective,
+        3 => Type::Extension,
+        _ => Type::Substitutive,
+    }
+}
+
+fn check_classify(with_function: bool) {
+    let loc = Location::dummy("");
+    let keep = loc.clone();
+    let func: Rc<Function<()>> = Rc::new(Function::new("x", Rc::new(Body) as Rc<dyn yash_env::function::FunctionBodyObject<()>>, loc));
+    let keep_f = func.clone();
+    let has_builtin: bool = kani::any();
+    let ty = any_type();
+    let avail = if kani::any() { Availability::Available } else { Availability::NotPortable };
+    let env = SearchEnv {
+        builtin: if has_builtin { Some((ty, avail)) } else { None },
+        function: if with_function { Some(func) } else { None },
+        asked_builtin: std::cell::Cell::new(0),
+        exec_b: false,
+        exec_c: false,
+    };
+    let slash: bool = kani::any();
+    let target = if slash { classify(&env, "a/x") } else { classify(&env, "x") };
+    if slash {
+        assert!(matches!(target, Target::External { .. }), "C02 a name with a slash is an external utility");
+        assert!(env.asked_builtin.get() == 0, "C02 ... without any lookup");
+    } else if has_builtin && ty == Type::Special {
+        assert!(matches!(&target, Target::Builtin { builtin, availability, .. } if builtin.r#type == Type::Special && *availability == avail),
+            "C02 a special built-in wins over a function");
+    } else if with_function {
+        assert!(matches!(&target, Target::Function(f) if Rc::ptr_eq(f, &keep_f)), "C02 a function wins over every non-special built-in");
+    } else if has_builtin {
+        assert!(matches!(&target, Target::Builtin { builtin, availability, .. } if builtin.r#type == ty && *availability == avail),
+            "C02 other built-ins come before the PATH search");
+    } else {
+        assert!(matches!(target, Target::External { .. }), "C02 otherwise the command is searched for in PATH");
+    }
+    kani::cover!(!slash && has_builtin && ty == Type::Special && with_function, "special built-in and function of one name");
+    kani::cover!(!slash && has_builtin && ty != Type::Special && with_function, "regular built-in and function of one name");
+    kani::cover!(true, "each: reached");
+    std::mem::forget(target);
+    std::mem::forget(env);
+    std::mem::forget(keep_f);
+    std::mem::forget(keep);
+}
+
+/// `CString::default()` is implemented with a C string literal, which Kani 0.68 does not
+/// support; it is replaced by an equivalent construction.
+fn empty_cstring() -> std::ffi::CString {
+    std::ffi::CString::new(Vec::new()).unwrap()
+}
+
+#[kani::proof]
+#[kani::unwind(6)]
+#[kani::stub(<std::ffi::CString as std::default::Default>::default, empty_cstring)]
+fn c02_search_order_with_function() {
+    check_classify(true);
+}
+
+#[kani::proof]
+#[kani::unwind(6)]
+#[kani::stub(<std::ffi::CString as std::default::Default>::default, empty_cstring)]
+fn c02_search_order_without_function() {
+    check_classify(false);
+}
+
+// ---------------------------------------------------------------------------
+// search(): the PATH walk and the statuses for unusable built-ins. PATH is the concrete
+// string "/b:/c"; which of the two candidates is an executable file is symbolic.
+// ---------------------------------------------------------------------------
+use yash_env::semantics::command::search::{Error as SearchError, PathEnv, Unusable, search};
+use yash_env::variable::Expansion;
+
+impl PathEnv for SearchEnv {
+    fn path(&self) -> Expansion<'_> {
+        Expansion::Scalar(std::borrow::Cow::Borrowed("/b:/c"))
+    }
+    fn is_executable_file(&self, path: &std::ffi::CStr) -> bool {
+        let p = path.to_bytes();
+        if p.len() == 4 && p[0] == b'/' && p[2] == b'/' && p[3] == b'x' {
+            if p[1] == b'b' {
+                return self.exec_b;
+            }
+            if p[1] == b'c' {
+                return self.exec_c;
+            }
+        }
+        false
+    }
+}
+
+fn check_search(kind: u8) {
+    // kind: 0 no built-in, 1 substitutive built-in, 2 mandatory built-in (availability symbolic)
+    let avail = if kani::any() { Availability::Available } else { Availability::NotPortable };
+    let mut env = SearchEnv {
+        builtin: match kind {
+            0 => None,
+            1 => Some((Type::Substitutive, avail)),
+            _ => Some((Type::Mandatory, avail)),
+        },
+        function: None,
+        asked_builtin: std::cell::Cell::new(0),
+        exec_b: kani::any(),
+        exec_c: kani::any(),
+    };
+    let (eb, ec) = (env.exec_b, env.exec_c);
+    let r = search(&mut env, "x");
+    let first: Option<&[u8]> = if eb { Some(b"/b/x") } else if ec { Some(b"/c/x") } else { None };
+    match kind {
+        0 => match (&r, first) {
+            (Ok(Target::External { path }), Some(want)) => assert!(path.to_bytes() == want, "C02 PATH is searched left to right"),
+            (Err(SearchError::NotFound), None) => {}
+            _ => panic!("C02 external utility: found iff some PATH entry has an executable of that name"),
+        },
+        _ => {
+            if avail == Availability::NotPortable {
+                assert!(matches!(r, Err(SearchError::Unusable(Unusable::NotPortable))), "C02 a non-portable built-in is refused");
+            } else if kind == 1 {
+                match (&r, first) {
+                    (Ok(Target::Builtin { path, .. }), Some(want)) => assert!(path.to_bytes() == want, "C02 substitutive built-in needs its external counterpart"),
+                    (Err(SearchError::Unusable(Unusable::NotInPath)), None) => {}
+                    _ => panic!("C02 substitutive built-in: usable iff an external utility of that name exists"),
+                }
+            } else {
+                assert!(matches!(&r, Ok(Target::Builtin { builtin, .. }) if builtin.r#type == Type::Mandatory), "C02 regular built-in needs no PATH search");
+            }
+        }
+    }
+    kani::cover!(kind == 0 && !eb && ec, "second PATH entry used");
+    kani::cover!(true, "each: reached");
+    std::mem::forget(r);
+    std::mem::forget(env);
+}
+
+macro_rules! search_harness {
+    ($name:ident, $k:expr) => {
+        #[kani::proof]
+        #[kani::unwind(8)]
+        #[kani::stub(<std::ffi::CString as std::default::Default>::default, empty_cstring)]
+        fn $name() {
+            check_search($k);
+        }
+    };
+}
+search_harness!(c02_search_path_external, 0);
+search_harness!(c02_search_path_substitutive, 1);
+search_harness!(c02_search_path_regular, 2);
